@@ -54,6 +54,8 @@ func exec(op string) vlib.Res {
 		return execStorePriv(f)
 	case "keycache run":
 		return execKeyCache(f)
+	case "window check":
+		return execWindow(f)
 	case "signers find":
 		return execSigners(f)
 	case "wild answer":
@@ -129,7 +131,9 @@ func gen(r *vlib.R, n int, tier string, emit func(string)) {
 	}
 	rest := n - n*9/20
 	for rest > 0 {
-		switch k := r.Intn(34); {
+		switch k := r.Intn(35); {
+		case k == 34:
+			emit(genWindow(r))
 		case k == 31:
 			if r.Bool() {
 				emit(genStorePriv(r))
@@ -644,6 +648,7 @@ func facts() map[string]any {
 	out["zone_flag"] = dns.ZONE
 	shapeFacts(out)
 	storeShapeFacts(out)
+	windowShapeFacts(out)
 	return out
 }
 
@@ -723,6 +728,98 @@ func storeShapeFacts(out map[string]any) {
 		})
 	}
 	out["shape_private_lookup_keyed_on_request_cd"] = sawGet && readersOK && sawKey && keyOK
+}
+
+// windowShapeFacts reads middleware/resolver/dnssec/verify.go: every validity-window test is the library's
+// ValidityPeriod handed the zero time (= the real clock, no tolerance added or subtracted), and every function that
+// runs a public-key verification (`.Verify(`) tests the window too.
+func windowShapeFacts(out map[string]any) {
+	out["shape_window_checked_on_real_clock"] = false
+	fset := token.NewFileSet()
+	file, err := parser.ParseFile(fset, filepath.Join(repoDir(), "middleware/resolver/dnssec/verify.go"), nil, 0)
+	if err != nil {
+		out["shape_window_parse_error"] = err.Error()
+		return
+	}
+	calls, good := 0, true
+	hasWindow, needs := map[string]bool{}, map[string]bool{}
+	bodies := map[string]*ast.BlockStmt{}
+	for _, d := range file.Decls {
+		fd, ok := d.(*ast.FuncDecl)
+		if !ok || fd.Body == nil {
+			continue
+		}
+		bodies[fd.Name.Name] = fd.Body
+		here, crypto := 0, false
+		ast.Inspect(fd.Body, func(x ast.Node) bool {
+			c, ok := x.(*ast.CallExpr)
+			if !ok {
+				return true
+			}
+			sel, ok := c.Fun.(*ast.SelectorExpr)
+			if !ok {
+				return true
+			}
+			switch sel.Sel.Name {
+			case "ValidityPeriod":
+				here++
+				zero := false
+				if len(c.Args) == 1 {
+					if cl, ok := c.Args[0].(*ast.CompositeLit); ok && len(cl.Elts) == 0 {
+						if ts, ok := cl.Type.(*ast.SelectorExpr); ok && ts.Sel.Name == "Time" {
+							if id, ok := ts.X.(*ast.Ident); ok && id.Name == "time" {
+								zero = true
+							}
+						}
+					}
+				}
+				if !zero {
+					good = false
+				}
+			case "Verify":
+				if len(c.Args) == 2 { // RRSIG.Verify(key, rrset)
+					crypto = true
+				}
+			}
+			return true
+		})
+		calls += here
+		hasWindow[fd.Name.Name] = here > 0
+		if crypto && here == 0 {
+			needs[fd.Name.Name] = true
+		}
+	}
+	// a function that verifies without testing the window itself is reached only through functions that do
+	cryptoWithout := false
+	for changed := true; changed; {
+		changed = false
+		for f := range needs {
+			refs := 0
+			for g, body := range bodies {
+				if g == f {
+					continue
+				}
+				uses := false
+				ast.Inspect(body, func(x ast.Node) bool {
+					if id, ok := x.(*ast.Ident); ok && id.Name == f {
+						uses = true
+					}
+					return !uses
+				})
+				if uses {
+					refs++
+					if !hasWindow[g] && !needs[g] {
+						needs[g] = true
+						changed = true
+					}
+				}
+			}
+			if refs == 0 {
+				cryptoWithout = true
+			}
+		}
+	}
+	out["shape_window_checked_on_real_clock"] = calls > 0 && good && !cryptoWithout
 }
 
 func main() {
